@@ -116,7 +116,7 @@ func init() {
 		Directed:   c03Directed,
 		Run:        c03Run,
 		MustHit:    []string{"nonconforming_idp", "misroute", "delay_past_expiry", "position>0", "place=R", "place=A", "place=RA", "place=none", "issuer_unconfigured"},
-		RandomRuns: map[string]int{"quick": 1200, "thorough": 60000},
+		RandomRuns: map[string]int{"quick": 8000, "thorough": 60000},
 		Assumptions: []string{"error identity is compared by Go type and by the SAML element/attribute name it carries, never by message text",
 			"a fault is injected alone; with several simultaneous violations any of the corresponding errors is allowed"},
 	})
